@@ -876,7 +876,12 @@ class SerializableArrayDescriptor(BasicDescriptor):
             self.data[instance] = value
         else:
             xml_ns = getattr(instance, '_xml_ns', None)
-            xml_ns_key = getattr(instance, '_xml_ns_key', None)
+            # noinspection PyProtectedMember
+            if hasattr(instance, '_child_xml_ns_key') and self.name in instance._child_xml_ns_key:
+                # noinspection PyProtectedMember
+                xml_ns_key = instance._child_xml_ns_key[self.name]
+            else:
+                xml_ns_key = getattr(instance, '_xml_ns_key', None)
             the_inst = self.data.get(instance, None)
             if the_inst is None:
                 self.data[instance] = self.array_extension(
